@@ -127,18 +127,45 @@ def paths_rules(rep, prog):
     # the precomputed successor table
     ok, why = False, "successor table not recognised"
     acc = None
-    for c in S.select("call", qname=q):
-        if c.callkind == "ext" and c.target == "dict" and c.args and c.args[0][0] == "comp":
-            comp = c.args[0]
-            elt = comp[2]
-            if elt[0] == "tuple" and len(elt[1]) == 2:
-                try:
-                    rows = eval_relation(strip_list(elt[1][1]), elt[1][0], "A")
-                    ok = all(rows[p] is succ_want(*p) for p in rows) and comp[3][0][1] == ("ext", "range", (("ext", "len", (("param", "A"),), ()),), ())
-                    why = "table %s over %s" % (rows, fmt(comp[3][0][1]))
-                    acc = c.result
-                except Inconclusive as e:
-                    why = e.why
+    # the table in any of its spellings: dict((i, succ(i)) for i in range(p)), {i: succ(i) for i in range(p)}, [succ(i) for i in range(p)]
+    tables = []
+    for fact in S.facts:
+        if fact.qname != q:
+            continue
+        for t_ in [getattr(fact, "value", None), getattr(fact, "term", None), getattr(fact, "result", None)] + list(getattr(fact, "args", []) or []):
+            if t_ is None:
+                continue
+            for x in walk(t_):
+                if not (isinstance(x, tuple) and x):
+                    continue
+                if x[0] == "ext" and x[1] == "dict" and len(x[2]) == 1 and x[2][0][0] == "comp" and x[2][0][2][0] == "tuple" and len(x[2][0][2][1]) == 2:
+                    tables.append((x, x[2][0][2][1][0], x[2][0][2][1][1], x[2][0][3]))
+                elif x[0] == "comp" and x[1] == "dict" and x[2][0] == "pair":
+                    tables.append((x, x[2][1], x[2][2], x[3]))
+                elif x[0] == "comp" and x[1] == "list" and len(x[3]) == 1 and x[3][0][1] == ("ext", "range", (("ext", "len", (("param", "A"),), ()),), ()):
+                    tables.append((x, ("elem", x[3][0][1]), x[2], x[3]))
+    for li_ in S.loopinfo.values():
+        if li_["func"] == q:
+            for t_ in list(li_["init"].values()) + list(li_["next"].values()):
+                for x in walk(t_):
+                    if isinstance(x, tuple) and x and x[0] == "comp" and x[1] in ("dict", "list") and not any(x == tb[0] for tb in tables):
+                        if x[1] == "dict" and x[2][0] == "pair":
+                            tables.append((x, x[2][1], x[2][2], x[3]))
+                        elif x[1] == "list" and len(x[3]) == 1 and x[3][0][1] == ("ext", "range", (("ext", "len", (("param", "A"),), ()),), ()):
+                            tables.append((x, ("elem", x[3][0][1]), x[2], x[3]))
+    seen_tb = []
+    for tb, key_, val_, gens_ in tables:
+        if tb in seen_tb:
+            continue
+        seen_tb.append(tb)
+        try:
+            rows = eval_relation(strip_list(val_), key_, "A")
+            good = all(rows[p] is succ_want(*p) for p in rows) and len(gens_) == 1 and gens_[0][1] == ("ext", "range", (("ext", "len", (("param", "A"),), ()),), ()) and not gens_[0][2]
+            why = "table %s over %s" % (rows, fmt(gens_[0][1]))
+            if good:
+                ok, acc = True, tb
+        except Inconclusive as e:
+            why = e.why
     rep.check("PATHS.successors.table", ok, fwhere(f), "successor table = {i: {j | A[i, j] != 0}} for every node",
               "successor table is not `A[i, j] != 0` for all nodes: " + why)
     # exclusion of visited nodes and of the current node; frame layout
@@ -227,6 +254,22 @@ def separates_rules(rep, prog):
         inter = [("binop", "&", ("ext", "set", (path_elem,), ()), PS_), ("binop", "&", PS_, ("ext", "set", (path_elem,), ()))]
         good = p in [("empty", t) for t in inter] or p in [("atom", ("method", ("ext", "set", (path_elem,), ()), "isdisjoint", (PS_,), ()), True),
                                                              ("atom", ("method", PS_, "isdisjoint", (path_elem,), ()), True)]
+        if not good and last is not None:
+            # any other spelling of `the path and S share no node`, decided in every Venn world of the two sets
+            from ..setpred import SetAlg
+            from ..sym import subst
+            P_, S_ = ("PATHSET",), ("SSET",)
+            t_ = subst(last[0], {("ext", "set", (path_elem,), ()): P_})
+            t_ = subst(subst(t_, {path_elem: P_}), {PS_: S_})
+            alg = SetAlg([P_, S_])
+            try:
+                eq, _ = alg.equal(lambda w: alg.truth(t_, w) == last[1], lambda w: not alg.nonempty(("binop", "&", P_, S_), w))
+                if eq:
+                    good = True
+                else:
+                    verdict = "bad"
+            except Inconclusive:
+                pass
         if not good and last is not None:
             # `not any(s in path for s in S)` / `all(s not in path for s in S)`
             c, pol = last
